@@ -411,6 +411,11 @@ func (*Ufs) Create(req *SrvReq) {
 
 	if file == nil && e == nil {
 		file, e = os.OpenFile(path, omode2uflags(tc.Mode), 0)
+		if e != nil && tc.Perm&DMSYMLINK != 0 {
+			// The symbolic link was created; that its target cannot be
+			// opened (a dangling link, say) does not make the create fail.
+			file, e = nil, nil
+		}
 	}
 
 	if e != nil {
